@@ -19,7 +19,7 @@ CHECKS = {
                 text="Histories of API calls over 1..3 pooled-buffer sessions; each emitted datagram must strictly decode to exactly the requested call (version, credentials, USM state, PDU type, ids, OIDs in order bound to NULL).",
                 note="Strict reference decoder refber.parse_message; a second stage covers v3 sessions of the real clients that discover their engine id (incl. lost first probe), session options left to their defaults and version autodetection."),
     "C04": dict(level="fault_enumeration", tech="property-based fault-script generation (Hypothesis) against a reference FIFO model of the socket queue; thorough tier enumerates all fault words of length <=3",
-                text="Fault scripts (loss, duplication, delay, reordering, field rewriting incl. ids equal modulo 2^31/2^32, truncation) over 1..4 requests are replayed against the real socket; every call outcome must equal a reference FIFO model computed from the ids seen on the wire; through the sync / async clients the datagrams of a burst arrive back to back or a few ms apart.",
+                text="Fault scripts (loss, duplication, delay, reordering, field rewriting incl. ids equal modulo 2^31/2^32, truncation, stale Reports and request-tagged PDUs with foreign ids) over 1..4 requests are replayed against the real socket; every call outcome must equal a reference FIFO model computed from the ids seen on the wire; through the sync / async clients the datagrams of a burst arrive back to back or a few ms apart.",
                 note="Assumes FIFO loopback UDP; classification uses the independent reference decoder."),
     "C05": dict(level="exploration", tech="property-based testing (Hypothesis): generated MIBs served by an RFC 3416 model agent; oracle is an arc-tuple model of the subtree",
                 text="Generated MIBs (prefix trees with multi-octet arcs), bases, max_repetitions, agent caps, versions and drivers; list(walk) must equal the model's subtree listing and end within |MIB|+2 requests.",
@@ -61,7 +61,7 @@ CHECKS = {
                 text="Requests grown to target sizes around 127/128, 255/256 and the buffer capacity on every configuration: either one strictly decodable datagram or SnmpEncodeError with nothing sent, follow-up requests unaffected; Buffer ops compared with a shadow model after every step.",
                 note="CAP read from src/buf/buffer.rs; random id widths give a few octets of slack in which either branch is accepted."),
     "C18": dict(level="fault_enumeration", tech="generated arrival schedules (Hypothesis) executed in parallel worker processes; wall-clock oracle with slack and triple confirmation",
-                text="Schedules of non-matching datagrams and early/late replies against sync and async sessions; a timely reply must be delivered, otherwise TimeoutError within T + slack; late replies must not be delivered; a call that does not return within 120 s is reported as call-never-returned.",
+                text="Schedules of non-matching datagrams (Responses and Reports with foreign ids, also in the last 0.1-1.5 ms before the deadline) and early/late replies against sync and async sessions, including v3 sessions whose first call is the engine-id discovery refresh() with foreign-engine Reports ahead of the genuine one; a timely reply must be delivered, otherwise TimeoutError within T + slack; late replies must not be delivered; a call that does not return within 120 s is reported as call-never-returned.",
                 note="The only wall-clock oracle: overruns must reproduce in two isolated re-runs; disagreement is logged as scheduling noise."),
     "C19": dict(level="exploration", tech="property-based testing (Hypothesis) of call-time sequences + bounded-exhaustive DFS with the real get_timeout as transition function; invariant oracle from exact rational interval",
                 text="Generated and exhaustively enumerated timestamp sequences against the real RPSPolicer; invariants delay<=I and window spans >(k-1)I checked over all pairs in O(n); sessions must consult the policer once per request, and sync / async sessions built with limit_rps=R must take longer than (k-1)/R for k+1 requests.",
